@@ -10,10 +10,7 @@ RULE = ('triangle: correspondence of Triangle::contains() over the bounding box 
         'ordered triples of a 4x4 grid (thorough: all 117 649 ordered triples of the 7x7 grid; colinear/coincident included) + random triples up to +-16 '
         '(some up to +-40) and at the range edge +-8192; search p_tri_c05: points() == row-major filter of contains() over box + margin (each once, inside '
         'the box; non-zero area) on all triples (up to order) of the 7x7 grid + all ordered triples of a 5x5 grid and random ones up to +-60')
-PARTIAL = ['C05_tri_points_in_contains_partial (full: every point yielded by points() is accepted by contains(); proved: contains() accepts exactly the closed '
-           'triangle plus the Bresenham pixels of the three sorted edges (C05_tri_contains_spec), points() yields all of those (C05_tri_contains_in_points) and only '
-           'points that lie in their row between two edge pixels; the geometric step "between two edge pixels => in the closed triangle or an edge pixel" is OPEN '
-           'and compared by p_tri_c05 on all 7x7 grid triples)']
+PARTIAL = []
 TRUSTED = []
 ASSUMPTIONS = ['triangle vertex coordinates within +-8192 (tri_ok) and non-zero area, as in the property text']
 
